@@ -9,10 +9,10 @@ rejects; everything that goes wrong with the machinery itself is `Infra`
 import json, os, re, shutil, subprocess, sys, tempfile, time, hashlib
 
 VERIF = os.path.dirname(os.path.dirname(os.path.abspath(__file__)))
-REPO = '/repo'
+REPO = os.environ.get('VERIF_REPO', '/repo')     # the tree under test (a scratch worktree when trying seeded changes)
 SPEC = os.path.join(VERIF, 'spec')
 HARNESS = os.path.join(VERIF, 'harness')
-EVID = os.path.join(VERIF, 'evidence')
+EVID = os.environ.get('VERIF_EVID') or os.path.join(VERIF, 'evidence')
 REPLAYS = os.path.join(EVID, 'replays')
 NCPU = os.cpu_count() or 4
 
@@ -73,6 +73,15 @@ class Ctx:
         except OSError:
             pass
         cmd = ['go', 'build', '-tags', 'verif', '-o', out]
+        if REPO != '/repo':
+            # same harness, other tree: an alternative go.mod whose replace points there
+            modf = self.path('alt.mod')
+            with open(os.path.join(HARNESS, 'go.mod')) as f:
+                txt = f.read().replace('=> /repo/v4', '=> %s/v4' % REPO)
+            with open(modf, 'w') as f:
+                f.write(txt)
+            shutil.copyfile(os.path.join(REPO, 'v4', 'go.sum'), self.path('alt.sum'))
+            cmd += ['-modfile', modf]
         if race:
             cmd.insert(2, '-race')
         cmd.append('./cmd/vh')
